@@ -32,6 +32,7 @@ type Config struct {
 	SecondStore   bool   // add a second badger store "second" (for copy onto another store)
 	NoLog         bool   // no filelog / mutation log
 	ExtraTOML     string
+	MainStoreTOML string // extra lines inside [store.main] (e.g. `inmemory = [":b1"]` for neuronjson)
 	Env           []string // extra environment for the next spawn (e.g. VERIF_CRASH_AT=3)
 }
 
@@ -172,6 +173,9 @@ func (c Config) toml() string {
 		sb.WriteString("  log = \"mlog\"\n")
 	}
 	fmt.Fprintf(&sb, "\n[store]\n  [store.main]\n  engine = %q\n  path = %q\n", engine, filepath.Join(c.Dir, "db"))
+	if c.MainStoreTOML != "" {
+		sb.WriteString("  " + c.MainStoreTOML + "\n")
+	}
 	if !c.NoLog {
 		fmt.Fprintf(&sb, "  [store.mlog]\n  engine = \"filelog\"\n  path = %q\n", filepath.Join(c.Dir, "flog"))
 	}
